@@ -14,6 +14,10 @@ OP  : {"op": "swap", "api": "py"|"core", "f": FN, "vals": bool}
       {"op": "cas", "api": ..., "old": V, "new": V} | {"op": "deref", "api": ...}
 FN  : "inc" | "str" | "id" | "throw" | {"const": V}
 VLD : null | {"lt": n}  (value must be an int < n; anything else is rejected)
+
+An initial value the validator rejects makes Atom.__init__ raise "Invalid reference state":
+replay -> {"status": "ctor_invalid"} (Corr: OFail 5, predicted by model and spec);
+explore -> one run with the empty schedule.
 """
 import math
 import os
@@ -150,6 +154,10 @@ def _validator(v):
     return lambda x: type(x) is int and x < n
 
 
+class CtorRejected(Exception):
+    """Atom.__init__ refused the initial value (its validator answers false on it)."""
+
+
 class Build:
     """Fresh shared state for one execution of a configuration."""
 
@@ -159,7 +167,12 @@ class Build:
         pool = self.pool
         Atom = _S["atom"].Atom
         with sched.instrumented_threading():
-            self.atom = Atom(pool.dec(cfg["init"]), validator=_validator(cfg.get("validator")))
+            try:
+                self.atom = Atom(pool.dec(cfg["init"]), validator=_validator(cfg.get("validator")))
+            except _S["ExceptionInfo"] as e:
+                if "Invalid reference state" in str(e):
+                    raise CtorRejected("Atom.__init__: Invalid reference state") from None
+                raise
         self.wlog = []
         for w in range(cfg.get("watches", 0)):
             self.atom.add_watch(w, self._watch)
@@ -273,13 +286,22 @@ def observe(b, res):
 def run(case):
     if "explore" in case:
         return explore(case)
-    b = Build(case)
+    try:
+        b = Build(case)
+    except CtorRejected as e:
+        return {"status": "ctor_invalid", "why": str(e), "res": [], "final": None, "wlog": [],
+                "msched": [], "leaked": 0}
     res = sched.run(b.bodies(), _S["files"], schedule=case["sched"], strict=True, **opts(case))
     return observe(b, res)
 
 
 def explore(case):
     ex = case["explore"]
+    try:
+        Build(case)             # probe: no atom, nothing to schedule
+    except CtorRejected:
+        return {"runs": [{"sched": [], "msched": []}], "explored": 1, "exhaustive": True,
+                "ctor_invalid": True}
     made = []
 
     def factory():
